@@ -403,6 +403,13 @@ def r08_5(run):
         run.ob('R08.5', cl, cl.node, '%s.close sends the close command' % name, len(sends) == 1, slot='close-sends:%s' % name, message='%s.close sends %d close commands' % (name, len(sends)))
 
 
+def r08_9(run):
+    """a stream's transition is announced only after Stream.update got through its attachment bookkeeping: if that can raise (the
+    circuit's stream list no longer holding the stream, a missing circuit) no listener hears the transition and a close() wait
+    never completes - the bookkeeping invariant and its only-writers are rule R07.2, shared"""
+    borrow(run, c07.r07_2, 'R08.9')
+
+
 def r08_7(run):
     c07.event_reaches_update(run, 'R08.7')
 
@@ -432,6 +439,7 @@ def r08_6(run):
 
 
 RULES = [
+    ('R08.9', 'Stream.update cannot raise in its attachment bookkeeping before notifying listeners (R07.2 borrowed: invariant + who-writes of circuit.streams)', r08_9),
     ('R08.1', 'path enumeration over state names x first-sight / attachment state: multiset of listener fan-outs equals the oracle; _notify is one isolated loop', r08_1),
     ('R08.2', 'flags delivered in both cases: _create_flags stores k and k.lower(); closed/failed/detach pass **_create_flags(kw)', r08_2),
     ('R08.3', 'global listeners attached to existing and future objects; listen deduplicates', r08_3),
@@ -444,6 +452,7 @@ RULES = [
 from ..selftest import M  # noqa: E402
 FS, FT, FC = 'txtorcon/stream.py', 'txtorcon/torstate.py', 'txtorcon/circuit.py'
 MUTANTS = [
+    M('destroyed-circuit-forgets-streams', 'txtorcon/torstate.py', "        del self.circuits[circuit.id]\n", "        del self.circuits[circuit.id]\n        circuit.streams = []\n", ['R08.9/R07.2']),
     M('relay-swallows-outcome', 'txtorcon/stream.py', "                d.callback(arg)\n                return arg\n", "                d.callback(arg)\n                return None\n", ['R08.5']),
     M('relay-falls-off', 'txtorcon/circuit.py', "                d.callback(arg)\n                return arg\n", "                d.callback(arg)\n", ['R08.5']),
     M('repeated-close-shares-deferred', 'txtorcon/circuit.py', "        if self._closing_deferred:\n            d = defer.Deferred()\n\n            def closed(arg):\n                d.callback(arg)\n                return arg\n            self._closing_deferred.addBoth(closed)\n            return d\n\n        # actually-close the circuit", "        if self._closing_deferred:\n            return self._closing_deferred\n\n        # actually-close the circuit", ['R08.5']),
